@@ -180,6 +180,8 @@ def hashOf (sch : List (Option Coll)) (row : List Val) : Option UInt64 :=
 inductive CmpTy where
   | int64                 -- types.Int64
   | decimal               -- types.InternalDecimalType = DECIMAL(65,30)
+  | float64               -- types.Float64 (integers up to 2^53 and short decimals only: there
+                          -- `FormatFloat(v, 'f', -1, 64)` is the trimmed decimal text)
   | text (c : Coll)       -- a text type with collation c
 
 def pow10 (n : Nat) : Nat := 10 ^ n
@@ -198,6 +200,9 @@ def numKey : CmpTy → Val → Option (List Nat)
   | .decimal, .int i => some (intText i)
   | .decimal, .dec c s => some (decTrimText c s)
   | .decimal, .bool b => some (if b then [49] else [48])
+  | .float64, .int i => some (intText i)
+  | .float64, .dec c s => some (decTrimText c s)
+  | .float64, .bool b => some (if b then [49] else [48])
   | _, _ => none
 
 /-- Bytes `HashOfSimple(ctx, v, t)` hashes (v non-NULL). -/
@@ -431,6 +436,7 @@ def cmpTyOf (e : Env) (lt : ColTy) (other : Option ColTy) (first : Val) : CmpTy 
     match other, first with
     | some (.dec _), _ => .decimal
     | none, .dec _ _ => .decimal
+    | none, .null => .float64   -- GetCompareType(INT, NULL type): neither both signed nor both unsigned
     | _, _ => .int64
 
 def keyEq (a b : Option (List Nat)) : Bool := a.isSome && a == b
